@@ -162,6 +162,41 @@ func packenvExec(c *Ctx, op string) {
 			}
 		}
 	}
+	// history of the process: the same base path held another fileset a moment ago (packed by this very process), in
+	// which names that are now a regular file / a real directory were symlinks (same sizes, so nothing but the hash can tell)
+	{
+		t := int64(1.2e9)
+		d := func(n string) Entry { return Entry{Name: n, Kind: 'd', Perms: 0755, Uid: 3, Gid: 4, Sec: t} }
+		fl := func(n, b string) Entry { return Entry{Name: n, Kind: 'f', Perms: 0644, Uid: 3, Gid: 4, Sec: t, Content: []byte(b)} }
+		ln := func(n, tg string) Entry { return Entry{Name: n, Kind: 'L', Perms: 0777, Uid: 3, Gid: 4, Sec: t, Link: tg} }
+		f1 := Fileset{d(""), fl("t", "OLD-TARGET"), ln("n", "t"), d("dd"), fl("dd/c", "old-child"), ln("dlink", "dd"), fl("plain", "p")}
+		f2 := Fileset{d(""), fl("t", "OLD-TARGET"), fl("n", "NEW-BYTES!"), d("dd"), fl("dd/c", "old-child"), d("dlink"), fl("dlink/c", "new-child"), fl("plain", "p")}
+		pth, q := filepath.Join(base, "reused"), filepath.Join(base, "fresh")
+		if Materialize(f1, pth, nil) == nil {
+			packOne(pth, "")
+			for _, format := range []string{"tar", "zip"} {
+				zp := func(dir string) string {
+					if format == "tar" {
+						return packOne(dir, "")
+					}
+					id, err, pan := safeCall(func() (api.WareID, error) { return ziptrans.Pack(ctx, "zip", dir, pf, "", rio.Monitor{}) })
+					return resTok(id, err, pan)
+				}
+				rmrf(pth)
+				Materialize(f1, pth, nil)
+				zp(pth)
+				rmrf(pth)
+				rmrf(q)
+				if Materialize(f2, pth, nil) == nil && Materialize(f2, q, nil) == nil {
+					got, want := zp(pth), zp(q)
+					c.H("variant:reused-base-path")
+					if got != want {
+						c.PropFail("pack-env", fmt.Sprintf("pack (%s) of the same fileset gives %s at a base path this process packed another fileset at before (symlinks where there are now a file and a directory) and %s at a fresh path", format, got, want), op)
+					}
+				}
+			}
+		}
+	}
 	// the CLI in a subprocess with another time zone, locale and working directory — tar and zip; set 0 carries
 	// mtimes inside the repeated / skipped wall-clock hours of these zones (see dstInstants)
 	if bin := os.Getenv("RIO_BIN"); bin != "" && len(dirs[0]) > 0 {
